@@ -37,8 +37,39 @@ def run_proc(exe, lines, timeout, big_stack=False):
     return p.returncode, out, p.stderr
 
 
+def run_shard(exe, lines, timeout, big_stack):
+    """one worker process per shard; a process that stops early (HANG, abort) is replaced by a fresh one for
+    the remaining lines. Returns [(line_output or None, err)] in order."""
+    res = []
+    pending = list(lines)
+    restarts = 0
+    while pending:
+        try:
+            rc, out, err = run_proc(exe, pending, timeout, big_stack)
+        except subprocess.TimeoutExpired:
+            rc, out, err = -9, [], "timeout after %ss" % timeout
+        for o in out[:len(pending)]:
+            res.append((o, ""))
+        done = len(out)
+        if done >= len(pending):
+            break
+        restarts += 1
+        if rc == 0 or restarts > 3 or (done == 0 and rc == -9):
+            # no progress information: give up on the rest of this shard
+            res.append((None, "rc=%s %s" % (rc, err[-500:])))
+            for _ in pending[done + 1:]:
+                res.append((None, "not run: worker process kept failing"))
+            break
+        if not (out and out[-1] == "HANG"):
+            # the process died on the next line without printing anything for it
+            res.append((None, "rc=%s %s" % (rc, err[-500:])))
+            done += 1
+        pending = pending[done:]
+    return res
+
+
 def run_sharded(exe, lines, timeout=600, big_stack=False, shards=None):
-    """results in input order; (None, err) entries for lines whose shard failed"""
+    """results in input order; (None, err) entries for lines whose worker failed"""
     if not lines:
         return []
     n = max(1, min(shards or vlib.NPROC, len(lines)))
@@ -47,18 +78,12 @@ def run_sharded(exe, lines, timeout=600, big_stack=False, shards=None):
     with cf.ThreadPoolExecutor(n) as ex:
         futs = {}
         for i, ch in enumerate(chunks):
-            futs[ex.submit(run_proc, exe, ch, timeout, big_stack)] = i
+            futs[ex.submit(run_shard, exe, ch, timeout, big_stack)] = i
         for f in cf.as_completed(futs):
             i = futs[f]
-            try:
-                rc, out, err = f.result()
-            except subprocess.TimeoutExpired:
-                rc, out, err = -9, [], "timeout after %ss" % timeout
+            r = f.result()
             for k in range(len(chunks[i])):
-                if k < len(out) and (rc == 0 or k < len(out) - 1):
-                    res[i + k * n] = (out[k], "")
-                else:
-                    res[i + k * n] = (None, "rc=%s %s" % (rc, err[-500:]))
+                res[i + k * n] = r[k] if k < len(r) else (None, "missing")
     return res
 
 
@@ -312,6 +337,10 @@ def evaluate(ctx, exe, drv, cases, model_max, timeout):
             ctx.tie_broken("harness c10 crashed, hung or produced short output", "%s\n%s" % (line[:400], err))
             parsed.append(None)
             continue
+        if out == "HANG":
+            ctx.violation("the send does not terminate although the peer keeps reading (no completion, no error)", {"case": line, "impl": "HANG"})
+            parsed.append(None)
+            continue
         if out.startswith("PANIC"):
             ctx.violation("the send path panicked: " + out[:200], {"case": line, "impl": out[:2000]})
             parsed.append(None)
@@ -421,6 +450,7 @@ def run(ctx):
                        "usize is 64 bit"]
     ctx.try_proof()
     exe = vlib.harness_build(["c10"])["c10"]
+    os.environ["VERIF_C10_DEADLINE_S"] = "90" if thorough else "20"     # per case; normal cases take milliseconds
     vlib.coq_make(["Conn/SendProofs.vo"])
     drv = vlib.ocaml_build("c10")
 
@@ -450,7 +480,7 @@ def replay(ctx, body):
         if not out:
             print("harness failed:", err[-500:])
             return 2
-        if out[0].startswith("PANIC"):
+        if out[0].startswith("PANIC") or out[0] == "HANG":
             print("REPRODUCED:", out[0][:300])
             return 1
         parts = [p.strip() for p in out[0].split("|")]
